@@ -339,6 +339,31 @@ func runC09(c *Ctx) error {
 		}
 		// edge cases: empty script file, and NUL bytes in rpm
 		scriptCase(c, fam, f, [][2]string{{"Scripts.PreInstall", ""}}, "empty-file", dir, base)
+		// a configured script that cannot be read (its path is a directory), next to readable ones: the slots are populated
+		// exactly when configured, so a package must not come out of this without the script – an error has to
+		for si, sel := range sels {
+			unread := filepath.Join(dir, fmt.Sprintf("unreadable-%s-%d.d", f, si))
+			_ = os.MkdirAll(unread, 0o755)
+			sp := *base
+			sp.Mutate = func(info *nfpm.Info) {
+				for sj, other := range sels {
+					if sj == si {
+						setScript(info, other, unread)
+					} else if sj == (si+1)%len(sels) {
+						okp := filepath.Join(dir, fmt.Sprintf("readable-%s-%d", f, sj))
+						_ = os.WriteFile(okp, []byte("#!/bin/sh\necho readable\n"), 0o644)
+						setScript(info, other, okp)
+					}
+				}
+			}
+			_, berr := BuildPkg(f, sp.Info())
+			fam.Eval(fmt.Sprintf("%s|unreadable|%s", f, sel), true)
+			if berr == nil {
+				c.Rep.Find(report.Finding{Property: "C09", Family: "scripts", Shape: f + ":configured-script-missing-without-error",
+					What:  "the script configured for " + sel + " cannot be read (its path is a directory); the package is built without an error, so a configured slot is empty or missing",
+					Input: map[string]any{"format": f, "configured": sel, "path": "a directory"}})
+			}
+		}
 		// bodies that end in NUL bytes up to and across a 512-byte block boundary (a tar stream ends in zero blocks: the
 		// body's own zeros are not part of that marker), alone in each slot and in all slots at once
 		if f != "rpm" {
